@@ -45,7 +45,13 @@ def rstepLine (st : RSt) (ws : List String) : Option (RSt × String) :=
   match ws with
   | ["reset", mode] => do pure (rinit ((← mode.toNat?) == 2), "ok")
   | ["arrive", tag, id, pre] => do
-    let (s, _) := rstep st (.arrive (← tag.toNat?) (← id.toNat?) ((← pre.toNat?) == 1))
+    let (s, _) := rstep st (.arrive (← tag.toNat?) (← id.toNat?) ((← pre.toNat?) == 1) none)
+    pure (s, "ok")
+  | ["arrive", tag, id, pre, mode] => do
+    -- mode: 0 = the transfer names none, 1 = first, 2 = second
+    let m ← mode.toNat?
+    let (s, _) := rstep st (.arrive (← tag.toNat?) (← id.toNat?) ((← pre.toNat?) == 1)
+      (if m == 0 then none else some (m == 2)))
     pure (s, "ok")
   | ["dispose", tag, id, code] => do
     let (s, os) := rstep st (.dispose (← tag.toNat?) (← id.toNat?) (dsOf (← code.toNat?)))
